@@ -12,14 +12,17 @@
        instruction level the VM and the reference semantics agree on the rules of the language: core-function call incl.
        error value and error position (`call_agrees`), conditional jump vs `truthy`, argument order of the pushes, tuple /
        array construction, return; core functions cannot see frames or pending arguments (`callPrim_frame_independent`).
-       NOT proved: the compositional compile-correctness theorem (see `compile_correct_partial` below for the exact gap). -/
+       A first compositional compile-correctness theorem is proved by induction on the form, for the call fragment
+       (literals, local and global symbols, nested one-argument calls of global core functions): `compile_correct_calls`.
+       NOT proved: the same for `do` / `if` / `def` / `var` / `set` / `while` / `fn`, calls with other argument counts, the error
+       outcome, tail position, far registers (see `compile_correct_partial` for the exact list). -/
 import JanetModel.Emit.Proofs
 import JanetModel.Bytecode.Exec
 import JanetModel.Lang.SemProps
 import JanetModel.Bytecode.ExecFrame
 import JanetModel.Gen.FiberFrame
 import JanetModel.Gen.Compile
-import JanetModel.Compile.Frame
+import JanetModel.Compile.Theorem
 namespace JanetModel.Props.C02
 open JanetModel.Emit
 
@@ -253,18 +256,56 @@ theorem control_and_data_agree (p : Program) (st : State) :
 theorem run_of_reach (p : Program) (a b : State) (h : Reach p a b) (fuel : Nat) : ∃ fuel', run p fuel' a = run p fuel b :=
   JanetModel.Compile.run_of_reach h fuel
 
-/-- `compile_correct` — executing the code `Compile.cValue` emits for `e`, from any frame whose registers hold the boxes of
-    `e`'s environment, reaches the value / world / error + position that `Lang.eval` gives `e` — is NOT proved.  What is
-    proved of it (this theorem): its two atomic cases at the model level, i.e. a literal and a global function symbol compile
-    to a constant slot, emit no code and leave scopes, buffer and source-map untouched.
-    Missing for the theorem, exactly: (1) the allocator discipline of `cValue` by induction on the form (registers
-    allocated at entry stay allocated; a target / temporary is a register that was free at entry; the result slot is a
-    constant, a named local, or a register free at entry and allocated at exit) — needed so that sibling operands and live
-    locals survive; (2) the VM run of the sequences `W.emitS/SS/SSS/SI` and `W.copy` produce in near mode, from the step
-    lemmas above; (3) stability of constant-pool indices and of the value table under later appends; (4) code layout: the
-    segments of sub-forms inside the final code, untouched by the label patches of enclosing `if` / `while`; (5) the
-    induction itself for calls, `do`, `if`, `def`, then `var`/`set`, `while`/`break`, `fn`.  Until then every construct stays
-    translation-validated: model = real compiler word for word, real bytecode run by the Lean VM = real VM = `Lang/Sem`. -/
+/-- **Compile correctness, call fragment** `e ::= literal | symbol | (f e)` (f a global core function other than `apply`, not a
+    special form, not shadowed; nesting arbitrary), value used, near registers (`c.lim ≤ 0xF0`).
+    If the compiler model compiles `e` in state `c` to `slot` and state `c'`, and `Lang/Sem.eval` gives `e` the value `v` in world
+    `s'`, then for every VM configuration `k` of one activation (frame `f0` on `rest`, any pc) whose world is `s`'s, whose pending
+    arguments are empty and whose registers hold the boxes of the names of `env` (`EnvOK`):
+      * compile side: `c'` is `c` with code `seg` appended, constants appended to the pool, the value table extended, the
+        current scope's allocator replaced by one that keeps everything that was allocated allocated (`max` monotone); `slot` is a
+        constant, a named local that was allocated, or a register that was free at entry and is allocated at exit;
+      * run side: wherever `seg` sits in the function's code (at `k.pc`), with the function's final constant pool `P` / value
+        table `V` extending the ones at this point and the frame large enough for the allocator's `max`, the VM reaches
+        pc + |seg| with empty pending arguments and world `s'`, every register allocated at entry unchanged, and `slot` holding `v`.
+    By induction on the compile fuel (`Compile/Theorem.lean`), from: the decode / step lemmas, `call_agrees`-style agreement,
+    the allocator lemmas (`alloc1_near`, `allocTemp_near`: a target / temporary is a free register below 0xF0), the emit-wrapper
+    specifications in the near case, constant-pool and value-table stability.  `FloatFacts` = two IEEE facts about Lean's opaque
+    `Float` (`toBits` injective; `Float.ofInt (toInt x) = x` for int16-valued `x`), needed only for number literals.
+    `hK`/`hP`: the running funcdef's constants are the final pool (what `janetc_pop_funcdef` does), fewer than 2¹⁶. -/
+theorem compile_correct_calls (p : Program) (f0 : Frame) (rest : List Frame) (V : Array Value) (P : List JanetModel.Emit.KConst)
+    (hP : P.length < 65536)
+    (hK : ∀ i, i < P.length → (p.defs.getD f0.defIdx default).consts.getD i .nil = litOf V (P.getD i .nil))
+    (FF : FloatFacts)
+    (fuel : Nat) (e : Expr) (c c' : CState) (slot : JSlot) (sc : Scope) (rs : List Scope) (pool : List JanetModel.Emit.KConst)
+    (ps : List (List JanetModel.Emit.KConst)) (n : Nat) (cur : Pos) (env env' : Env) (s s' : SS) (v : Value) (k : Cfg)
+    (hs : c.scopes = sc :: rs) (hp : c.pools = pool :: ps) (hl : c.lim ≤ 240) (hfrag : TC c e)
+    (hcomp : cValue fuel {} e c = some (slot, c')) (hsem : eval n cur env e s = .ok (v, env') s')
+    (hw : k.w = s.st.world) (hargs : k.args = #[]) (henv : EnvOK c env s k.regs sc.ra) :
+    ∃ (ra' : JanetModel.Emit.RA) (more : List JanetModel.Emit.KConst) (seg : List CI) (segm : List Pos),
+      c' = { c with scopes := { sc with ra := ra' } :: rs, pools := (pool ++ more) :: ps, buf := c.buf ++ seg, map := c.map ++ segm, vals := c'.vals } ∧
+      PrefA c.vals c'.vals ∧ (∀ r, sc.ra.alloc r = true → ra'.alloc r = true) ∧ sc.ra.max ≤ ra'.max ∧ SlotOK sc ra' c'.vals slot ∧
+      (CodeAt (p.defs.getD f0.defIdx default).code k.pc seg → PrefL (pool ++ more) P → PrefA c'.vals V → ra'.max < k.regs.size →
+        ∃ regs', Reach p (inj f0 rest k) (inj f0 rest { regs := regs', pc := k.pc + seg.length, args := #[], w := s'.st.world }) ∧
+          regs'.size = k.regs.size ∧ (∀ r, sc.ra.alloc r = true → regs'.getD r .nil = k.regs.getD r .nil) ∧ slotVal V regs' slot = v) :=
+  tc_correct p f0 rest V P hP hK FF fuel e c c' slot sc rs pool ps n cur env env' s s' v k hs hp hl hfrag hcomp hsem hw hargs henv
+
+/-- non-vacuity: `(emit (tuple 7))` is in the fragment for a state without locals -/
+example (c : CState) (h : c.scopes = []) :
+    TC c (.form [.sym "emit", .form [.sym "tuple", .lit (.num 7)] {}] {}) := by
+  have hl : ∀ x, lookupSlot c x = none := by intro x; simp [lookupSlot, h, searchScopes]
+  exact .call1 "emit" _ {} (by decide) (by decide) (hl _) (.call1 "tuple" _ {} (by decide) (by decide) (hl _) (.lit _ trivial))
+
+/-- `compile_correct` for the rest of the modelled fragment is NOT proved.  Proved of it: `compile_correct_calls` above, and
+    (this theorem) the two atomic cases for every option set without hint / tail: a literal and a global function symbol compile
+    to a constant slot, emit no code and leave scopes and buffer untouched.
+    Missing, exactly: (1) calls with 0 or ≥ 2 arguments (PUSH_2 / PUSH_3 grouping: operands held simultaneously), calls through
+    locals and computed heads (need closures in the VM relation); (2) `do` / `upscope` (scope push / pop: allocator clone, `max`
+    merge, keepslot), `if` (jumps, label patches: code layout of sub-forms under the patches; target copy `W.copy`), `def` / `var` /
+    `set` (environment extension: `Lang/Sem` box ↔ register), `while` / `break`, `fn` / closures / upvalues; (3) the error outcome
+    (same error value at the source-map position: needs the model's `map` in `Correct`), tail position (RETURN / TAILCALL ends the
+    activation), the dropped-value variant (same code here); (4) far registers (`lim` > 0xF0: the `emit_*_correct` theorems cover
+    the emit layer, not yet connected).  Every construct outside `compile_correct_calls` stays translation-validated: model =
+    real compiler word for word, real bytecode run by the Lean VM = real VM = `Lang/Sem`. -/
 theorem compile_correct_partial (fuel : Nat) (opts : Fopts) (c : CState) (hopts : opts.tail = false ∧ opts.hint = none) :
     (∀ v : Value, (match v with | .nil | .bool _ | .num _ | .str _ | .kw _ | .sym _ | .cfun _ => True | _ => False) →
         cValue (fuel + 1) opts (.lit v) c = some ((constSlot c v).1, { (constSlot c v).2 with cur := c.cur }) ∧
